@@ -123,12 +123,12 @@ def generate(textx):
             while arguments:
                 m = arguments.pop(0)
                 if m.startswith("--"):
-                    arg_name = m[2:]
+                    arg_name = m[2:].replace("-", "_")
                     if not arguments or arguments[0].startswith("--"):
                         # Boolean argument
                         custom_args[arg_name] = True
                     else:
-                        custom_args[arg_name.replace("-", "_")] = arguments.pop(0).strip(
+                        custom_args[arg_name] = arguments.pop(0).strip(
                             "\"'"
                         )
                 else:
